@@ -159,7 +159,7 @@ func (Tail) Generate(seed uint64, tier string) engine.Plan {
 		// words (the default reclaim threshold, also the initial capacity) ahead of
 		// the window, so that the stored tail is long while the front is being
 		// compacted and reclaimed
-		ahead := r.PickInt64(1<<16-1, 1<<16, 1<<16+63, 1<<16+64, 70000, 1<<17, 200000)
+		ahead := r.PickInt64(1<<16-1, 1<<16, 1<<16+63, 1<<16+64, 70000, 1<<17, 200000, 1<<20-1, 1<<20, 1<<20+64, 1<<21)
 		pr := TailProducer{Start: base + ahead, Count: 1 + r.Intn(4), Stride: r.PickInt64(1, 63, 64, 1000), Order: "asc", Seed: r.Uint64()}
 		p.Producers = append(p.Producers, pr)
 	}
